@@ -1,12 +1,13 @@
 (* Model of the vector runtime's aggregation operators and of the planner's
    vectorisation predicate (C09).
    Mirrors: runtime/vam/op/agg.go (CountByString.update, countByString.count,
-   countDict, countFixed, materialize; Sum.update, materialize) as the code is,
+   countNulls, countDict, countFixed, materialize; Sum.update, materialize) as the
+   code is (after the fixes C09-01..06),
    runtime/vcache/loader.go (the column encodings it produces: plain, dict,
    const, each with an optional null mask), compiler/optimizer/vam.go
    (Vectorize / isScanWithVectors / IsCountByString / IsSum) together with
    compiler/lake.go (Parallelize, hence Vectorize, is only called for
-   parallelism > 1).
+   parallelism > 1; no vectorisation of filtered scans or behind a Slicer).
    Definitions only; proofs are in Proofs/VamProofs.v. *)
 From ZV Require Import Base.Prelude.
 Local Open Scope Z_scope.
@@ -135,18 +136,35 @@ Definition tbl_add (k : bytes) (d : Z) (t : table) : table := tbl_set k (tbl_get
 
 Record cbstate := mkcb { cb_tbl : table; cb_nulls : Z }.
 
-(* countByString.count: every slot, the null mask is not consulted *)
-Definition count_plain (vals : list bytes) (st : cbstate) : cbstate :=
-  mkcb (fold_left (fun t s => tbl_add s 1 t) vals (cb_tbl st)) (cb_nulls st).
+(* countNulls(nulls, n): number of set bits among the first n slots *)
+Fixpoint nullcount (n : nat) (nulls : list bool) : Z :=
+  match n with
+  | O => 0
+  | S m => (if hd false nulls then 1 else 0) + nullcount m (tl nulls)
+  end.
 
-(* countByString.countDict:  c.table[entry k] = uint64(counts[k])  (assignment) *)
-Definition count_dict (entries : list bytes) (counts : list Z) (st : cbstate) : cbstate :=
-  mkcb (fold_left (fun t '(s, c) => tbl_set s c t) (combine entries counts) (cb_tbl st)) (cb_nulls st).
+(* countByString.count: a null slot goes to the nulls counter, any other
+   slot increments its key *)
+Fixpoint count_plain (vals : list bytes) (nulls : list bool) (st : cbstate) : cbstate :=
+  match vals with
+  | [] => st
+  | s :: r =>
+    count_plain r (tl nulls)
+      (if hd false nulls then mkcb (cb_tbl st) (cb_nulls st + 1)
+       else mkcb (tbl_add s 1 (cb_tbl st)) (cb_nulls st))
+  end.
+
+(* countByString.countDict:  c.table[entry k] += uint64(counts[k]);  then
+   update adds countNulls(val.Nulls, val.Len()) to the nulls counter *)
+Definition count_dict (entries : list bytes) (counts : list Z) (nslots : nat) (nulls : list bool)
+           (st : cbstate) : cbstate :=
+  mkcb (fold_left (fun t '(s, c) => tbl_add s c t) (combine entries counts) (cb_tbl st))
+       (cb_nulls st + nullcount nslots nulls).
 
 (* countByString.countFixed *)
-Definition count_fixed (v : cval) (n : nat) (st : cbstate) : cbstate :=
+Definition count_fixed (v : cval) (n : nat) (nulls : list bool) (st : cbstate) : cbstate :=
   match v with
-  | KStr s => mkcb (tbl_add s (Z.of_nat n) (cb_tbl st)) (cb_nulls st)
+  | KStr s => mkcb (tbl_add s (Z.of_nat n - nullcount n nulls) (cb_tbl st)) (cb_nulls st + nullcount n nulls)
   | KNullV => mkcb (cb_tbl st) (cb_nulls st + Z.of_nat n)
   | _ => st
   end.
@@ -154,10 +172,10 @@ Definition count_fixed (v : cval) (n : nat) (st : cbstate) : cbstate :=
 (* CountByString.update on one evaluated column; None = panic *)
 Definition cb_update (st : cbstate) (c : col) : option cbstate :=
   match c with
-  | CStr vals _ => Some (count_plain vals st)
-  | CDictStr e cnt _ _ => Some (count_dict e cnt st)
+  | CStr vals nulls => Some (count_plain vals nulls st)
+  | CDictStr e cnt idx nulls => Some (count_dict e cnt (List.length idx) nulls st)
   | CDictNum _ _ _ _ _ | CDictOther _ _ => None   (* val.Any.( *vector.String) fails *)
-  | CConst v n _ => Some (count_fixed v n st)
+  | CConst v n nulls => Some (count_fixed v n nulls st)
   | CNum _ _ _ | CMissing _ | COther _ => None    (* panic("UNKNOWN %T") *)
   end.
 
@@ -204,11 +222,14 @@ Definition sum_vals (s : Z) (vals : list Z) : Z :=
 Definition sum_dict (s : Z) (entries counts : list Z) : Z :=
   fold_left (fun a '(v, c) => wrap64 (a + wrap64 (wrap64 v * c))) (combine entries counts) s.
 
-(* Sum.update: Int, Uint, Dict of Int/Uint; everything else is skipped silently *)
+(* Sum.update: Int, Uint, Const of an integer type (value * number of
+   non-null slots), Dict of Int/Uint; everything else is skipped silently *)
 Definition sum_update (s : Z) (c : col) : Z :=
   match c with
   | CNum t vals _ => if is_intlike t then sum_vals s vals else s
   | CDictNum t e cnt _ _ => if is_intlike t then sum_dict s e cnt else s
+  | CConst (KNum t z) n nulls =>
+    if is_intlike t then wrap64 (s + wrap64 (wrap64 z * (Z.of_nat n - nullcount n nulls))) else s
   | _ => s
   end.
 
@@ -239,8 +260,10 @@ Inductive shape := SCountBy | SSum | SOther.
 
 (* lakeCompiler.NewLakeQuery + Job.Parallelize + Optimizer.Vectorize:
    a leg is handed to the vector runtime iff parallelism > 1, the pool has at
-   least one object, every object has a vector copy, and the leg is
-   scan | count() by <field>  or  scan | sum(<field>) *)
-Definition vectorized (sh : shape) (par nobj nvec : N) : bool :=
-  (1 <? par)%N && (0 <? nobj)%N && (nvec =? nobj)%N &&
+   least one object, every object has a vector copy, the leg is
+   scan | count() by <field>  or  scan | sum(<field>), the scan carries no
+   pushed-down filter/pruner ([filt]) and the plan has no Slicer ([sliced]:
+   the grouping field is the pool key, so the input must stay sorted). *)
+Definition vectorized (sh : shape) (par nobj nvec : N) (filt sliced : bool) : bool :=
+  (1 <? par)%N && (0 <? nobj)%N && (nvec =? nobj)%N && negb filt && negb sliced &&
   match sh with SCountBy | SSum => true | SOther => false end.
